@@ -45,6 +45,12 @@ ENGINE_RUN = {"harness": "hhttpe", "driver": "httpdrv", "fields": ["handled", "c
 BODY_RUN = {"harness": "hbody", "driver": "httpdrv", "fields": None, "corpus": "httpbody",
             "quick": {"n": 400, "shards": 4}, "thorough": {"n": 6000, "shards": 16}}
 
+# the real client path (ClientConn.Do -> engine -> client parser -> ClientProcessor -> callback) against a raw loopback
+# server: pipelined HEAD / GET scripts, 200 / 204 / 304, Content-Length / chunked; the model parser runs over the bytes the
+# server sent with the same request context (Cfg.head)
+CLIENT_RUN = {"harness": "hclient", "driver": "httpdrv", "fields": ["got"], "corpus": "httpclient",
+              "quick": {"n": 24, "shards": 3, "timeout": 600}, "thorough": {"n": 400, "shards": 8, "timeout": 1800}}
+
 PROPS = {
     "C07": {
         "manifest": {
@@ -62,9 +68,9 @@ PROPS = {
                     "neighbours of the agreed domain are classified and counted, not judged",
             "technique": "Lean 4 proof (compositional, per grammar production, on the byte-at-a-time spec; lifted to the Go-shaped loop in "
                          "any segmentation by the C06 refinement) + three-way differential correspondence"},
-        "lean": ["NbioVerif.Properties.C07", "NbioVerif.Lemmas.HttpTables"], "drivers": ["httpdrv"], "harness": ["hhttp", "hhttp7", "hbody"],
+        "lean": ["NbioVerif.Properties.C07", "NbioVerif.Lemmas.HttpTables"], "drivers": ["httpdrv"], "harness": ["hhttp", "hhttp7", "hbody", "hclient"],
         "facts": [http_tables],
-        "runs": [C07_RUN, BODY_RUN],
+        "runs": [C07_RUN, BODY_RUN, CLIENT_RUN],
         "oracles": ["c07-"],
         "rule": "case = 1..3 pipelined messages drawn from the Msg grammar (or one neighbour of the agreed domain) + a segmentation; distinct "
                 "by hash of (role, method/version, header-count class, framing headers and their spellings, framing kind, chunk count and "
